@@ -6,6 +6,8 @@ use crate::json::Json;
 pub mod c01;
 pub mod c02;
 pub mod c03;
+pub mod c04;
+pub mod c05;
 pub mod c11;
 pub mod c12;
 pub mod c13;
@@ -16,6 +18,8 @@ pub fn run(ctx: &mut Ctx) -> bool {
         "C01" => c01::run(ctx),
         "C02" => c02::run(ctx),
         "C03" => c03::run(ctx),
+        "C04" => c04::run(ctx),
+        "C05" => c05::run(ctx),
         "C11" => c11::run(ctx),
         "C12" => c12::run(ctx),
         "C13" => c13::run(ctx),
@@ -153,7 +157,7 @@ pub fn exec_compare_text(ctx: &mut Ctx, what: &str, tree: &Program, text: &str, 
     }
     let opts = ExecOpts {
         fuel: model.steps.saturating_mul(8) + 1000,
-        log_events: false,
+        log_events: ctx.log_events,
         log_dict: false,
         trap: true,
     };
@@ -220,6 +224,22 @@ pub fn exec_compare_text(ctx: &mut Ctx, what: &str, tree: &Program, text: &str, 
                 );
                 return mk(Verdict::Violation, Some(model), run.stdout, run.result.err());
             }
+            if run.stmts != model.stmts {
+                ctx.violation(
+                    &format!("{}:statements_executed_differ:{}", what, if run.stmts > model.stmts { "more" } else { "fewer" }),
+                    &format!("rrss started {} statements, the model {} (same output and outcome)", run.stmts, model.stmts),
+                    case(observed),
+                );
+                return mk(Verdict::Violation, Some(model), run.stdout, run.result.err());
+            }
+            ctx.add("statements_matched", run.stmts);
+            if ctx.log_events {
+                if let Some((sig, detail)) = h3_invariants(&run.events, run.result.is_ok()) {
+                    ctx.violation(&format!("{}:h3:{}", what, sig), &detail, case(observed));
+                    return mk(Verdict::Violation, Some(model), run.stdout, run.result.err());
+                }
+                ctx.add("h3_events_checked", run.events.len() as u64);
+            }
             if want_err {
                 ctx.count("error_outcomes_agreed");
             } else {
@@ -229,4 +249,49 @@ pub fn exec_compare_text(ctx: &mut Ctx, what: &str, tree: &Program, text: &str, 
             mk(Verdict::Agree, Some(model), run.stdout, run.result.err())
         }
     }
+}
+
+/// Invariants over the statement-boundary events of one run (H3):
+/// * a loop statement never completes in state Breaking / Continuing (the loop consumes them);
+/// * the scope depth after a statement equals the depth before it;
+/// * a statement at the outermost block of a run without functions starts at depth 1.
+pub fn h3_invariants(events: &[rrss::verif::StmtEvent], ok: bool) -> Option<(String, String)> {
+    use rrss::verif::{Flow, Phase};
+    let mut stack: Vec<&rrss::verif::StmtEvent> = Vec::new();
+    for (i, e) in events.iter().enumerate() {
+        match e.phase {
+            Phase::Before => stack.push(e),
+            Phase::After => {
+                let b = match stack.pop() {
+                    Some(b) => b,
+                    None => return Some(("unbalanced_events".into(), format!("After without Before at event {}", i))),
+                };
+                if b.kind != e.kind {
+                    return Some(("unbalanced_events".into(), format!("Before {} closed by After {} at event {}", b.kind, e.kind, i)));
+                }
+                if b.scope_depth != e.scope_depth {
+                    return Some((
+                        format!("scope_depth_changed_across:{}", e.kind),
+                        format!("scope depth {} before and {} after a {} statement (event {})", b.scope_depth, e.scope_depth, e.kind, i),
+                    ));
+                }
+                if (e.kind == "While" || e.kind == "Until") && matches!(e.flow, Flow::Breaking | Flow::Continuing) {
+                    return Some((
+                        format!("loop_left_in_state:{:?}", e.flow),
+                        format!("a {} statement completed in control-flow state {:?} (event {})", e.kind, e.flow, i),
+                    ));
+                }
+                if b.flow != Flow::Normal {
+                    return Some((
+                        format!("statement_started_in_state:{:?}", b.flow),
+                        format!("a {} statement started while the state was {:?} (event {})", b.kind, b.flow, i),
+                    ));
+                }
+            }
+        }
+    }
+    if ok && !stack.is_empty() {
+        return Some(("unbalanced_events".into(), format!("{} statements never completed in a successful run", stack.len())));
+    }
+    None
 }
